@@ -34,6 +34,7 @@ var checks = map[string]func(*ctx){
 	"C17": runC17,
 	"C18": runC18,
 	"C19": runC19,
+	"C20": runC20,
 }
 
 func main() {
